@@ -20,7 +20,7 @@ PTR = re.compile(r'Pointer \{ addr: [^}]*\}')
 _CTX = {}
 
 GEN_KINDS = ('core', 'scope', 'classes', 'exc', 'chan', 'opcover', 'natives', 'strings', 'alias', 'gcstress',
-             'dynclasses', 'numbers')
+             'dynclasses', 'numbers', 'mixins')
 
 
 def available_kinds(wanted=GEN_KINDS):
